@@ -1,3 +1,2 @@
--- This module serves as the root of the `Simaple` library.
--- Import modules here that should be built as part of the library.
-import Simaple.Basic
+-- root of the `Simaple` library; modules are built individually by the checks (see ../setup.sh)
+import Simaple.Model.PyPrelude
